@@ -110,4 +110,25 @@ def check(ctx: Ctx) -> str:
     ini = repo.func("sandbox:SandboxedEnvironment.__init__")
     s = ast.unparse(ini.node)
     ctx.check("self.binop_table = self.default_binop_table.copy()" in s and "self.unop_table = self.default_unop_table.copy()" in s, "tables:copied", "sandbox:SandboxedEnvironment.__init__", "per-environment tables", "the operator tables must be copied per environment", ini.loc())
+
+    ctx.rule("R4", "every written operator becomes an operator node: in the parser levels of the interceptable operators the branch / loop taken on the operator token builds the node class unconditionally (no operand is special-cased into 'no operation'), so each application reaches the interception point")
+    pu = repo.func("parser:Parser.parse_unary")
+    for tok, cls in (("sub", "Neg"), ("add", "Pos")):
+        br = [n_ for n_ in ast.walk(pu.node) if isinstance(n_, ast.If) and ast.unparse(n_.test) == f"token_type == '{tok}'"]
+        ctx.need(len(br) == 1, f"parse_unary: branch for token {tok} not found")
+        assigns = [s_ for s_ in br[0].body if isinstance(s_, ast.Assign) and ast.unparse(s_.targets[0]) == "node"]
+        nested = [s_ for s_ in br[0].body if isinstance(s_, (ast.If, ast.For, ast.While, ast.Try, ast.Return))]
+        ok = len(assigns) == 1 and isinstance(assigns[0].value, ast.Call) and astq.callee(assigns[0].value) == f"nodes.{cls}" and not nested
+        ctx.check(ok, f"parse_unary:{tok}", "parser:Parser.parse_unary", f"unary {tok} does not always build nodes.{cls}",
+                  f"parse_unary must turn every unary `{'-' if tok == 'sub' else '+'}` into nodes.{cls}(<operand>); here the branch holds {[ast.unparse(s_)[:60] for s_ in br[0].body]}: an application that produces no {cls} node is neither folded under the interception guard nor compiled to call_unop, so a sandbox intercepting the operator never sees it", pu.loc(br[0]))
+    for meth, toks in (("parse_math1", ("add", "sub")), ("parse_math2", ("mul", "div", "floordiv", "mod")), ("parse_pow", ("pow",))):
+        fi = repo.func(f"parser:Parser.{meth}")
+        loops = [n_ for n_ in ast.walk(fi.node) if isinstance(n_, ast.While)]
+        ctx.need(len(loops) == 1, f"{meth}: operator loop not found")
+        body = loops[0].body
+        builds = [s_ for s_ in body if isinstance(s_, ast.Assign) and ast.unparse(s_.targets[0]) == "left" and isinstance(s_.value, ast.Call)]
+        nested = [s_ for s_ in body if isinstance(s_, (ast.If, ast.Try, ast.Return, ast.Break, ast.Continue))]
+        ok = len(builds) == 1 and not nested and [ast.unparse(a) for a in builds[0].value.args[:2]] == ["left", "right"]
+        ctx.check(ok, f"{meth}:builds", f"parser:Parser.{meth}", f"operator loop of {meth} does not always build the node",
+                  f"{meth} must build <operator class>(left, right) for every operator token it consumes; loop body: {[ast.unparse(s_)[:50] for s_ in body]}", fi.loc(loops[0]))
     return __doc__ or ""
